@@ -219,7 +219,7 @@ fn inbound_cancel_response(e: usize) {
         Err(_) => assert!(want.is_none(), "C04: a cancel response for this exchange's instrument could not be translated"),
     }
     kani::cover!(want.is_some(), "own exchange, known instrument");
-    kani::cover!(x != e && e == 1 && k >= 1 && k <= 2, "foreign exchange id with an instrument name known on this link");
+    kani::cover!(x != e && ((e == 0 && k == 0) || (e == 1 && (k == 1 || k == 2))), "foreign exchange id with an instrument name known on this link");
     core::mem::forget(out);
     core::mem::forget(indexer);
 }
